@@ -82,6 +82,15 @@ impl Family for C18Family {
             let pos = r.usize(c.actors[0].ops.len() + 1);
             c.actors[0].ops.insert(pos, plain_op(OpKind::GetInfo { via_trait: false }));
         }
+        if r.chance(1, 3) {
+            let pos = r.usize(c.actors[0].ops.len() + 1);
+            let capability = *r.pick(&[Capability::Full, Capability::OnlyNonDiscoverable, Capability::ForcedDiscoverable]);
+            let verification = *r.pick(&[None, Some(false), Some(true)]);
+            c.actors[0].ops.insert(pos, plain_op(OpKind::SetCapability { capability, verification }));
+            // make sure getInfo is asked on both sides of the change
+            c.actors[0].ops.insert(0, plain_op(OpKind::GetInfo { via_trait: false }));
+            c.actors[0].ops.push(plain_op(OpKind::GetInfo { via_trait: false }));
+        }
         if backend != Backend::Ref {
             for op in c.actors[0].ops.iter_mut() {
                 if let OpKind::GetAssertion(s) = &mut op.kind {
@@ -104,7 +113,7 @@ impl Family for C18Family {
         direct.twin = Twin::None;
         let rec = run_and_measure(&direct, stats);
         let mut j = Judge::new("C18", scn, &rec);
-        for p in ["get_info_through_trait", "make_credential_through_trait", "get_assertion_through_trait", "failing_op_through_trait", "cancelled_op_through_trait"] {
+        for p in ["capability_changed_between_calls", "get_info_through_trait", "make_credential_through_trait", "get_assertion_through_trait", "failing_op_through_trait", "cancelled_op_through_trait"] {
             stats.declare_probe(p);
         }
         if rec.panic.is_some() || rec.outcome != Outcome2::Done {
@@ -132,6 +141,7 @@ impl Family for C18Family {
             let (ra, rb) = (outcome_repr(&a.result), outcome_repr(&b.result));
             sig.write_str(&format!("{:?}|{}", std::mem::discriminant(kind), short_result(&a.result).split(' ').next().unwrap_or("")));
             match kind {
+                OpKind::SetCapability { .. } => stats.probe("capability_changed_between_calls"),
                 OpKind::GetInfo { .. } => stats.probe("get_info_through_trait"),
                 OpKind::MakeCredential(_) => stats.probe("make_credential_through_trait"),
                 OpKind::GetAssertion(_) => stats.probe("get_assertion_through_trait"),
